@@ -102,9 +102,9 @@ impl ThreadPoolBuilder {
         } else {
             self.num_threads
         };
-        // rayon: use_current_thread with num_threads(0|1) makes the caller the only worker.
-        let only_current = self.use_current && (self.num_threads <= 1);
-        if simrt::init_pool(n, only_current) {
+        // rayon: `use_current_thread()` registers the caller as one of the pool's `n` workers; with
+        // num_threads left at 0 the pool still has the default number of threads (one per CPU).
+        if simrt::init_pool(n, self.use_current) {
             Ok(())
         } else {
             Err(ThreadPoolBuildError)
